@@ -192,7 +192,7 @@ impl Model for SelModel {
             out.extend(c(s, r));
         }
         let mut seen = std::collections::HashSet::new();
-        out.retain(|f| seen.insert(f.sig.clone()));
+        out.retain(|f| seen.insert((f.sig.clone(), f.fixed_key.clone())));
         out
     }
     fn op_class(&self, op: &SelOp) -> String {
